@@ -25,28 +25,37 @@ Theorem realDyadicLazy_is_dyadicLazy : forall {A} (F : Fl A) r32 c a b v0 f1 f2 
   realDyadicLazy F r32 c a b v0 f1 f2 s = dyadic_lazy F r32 c (Rg a) (Rg b) v0 f1 f2 s.
 Proof. exact @ProofsS.realDyadicLazy_eq. Qed.
 
-(* NEG ADD SUB MUL DIV POW SQRT EXP LOG LOG1P MIN MAX SET LOGADD LOGSUB: same register file, same panics,
-   over every carrier (R, floats, ...) and both storage roundings (Real64 / Real32) *)
+(* NEG ADD SUB MUL DIV POW SQRT EXP LOG LOG1P MIN MAX ABS SET LOGADD LOGSUB: same register file, same panics,
+   over every carrier (R, floats, ...) and both storage roundings (Real64 / Real32).  ABS: since 2fc8894 it
+   switches on the argument's sign with a Reset case (round 1: refuted); SET: since d9fca78 Alloc before Order. *)
 Theorem scalar_pairs_interchangeable : forall {A} (F : Fl A) (r32 : A -> A) (p : spair),
-  ProofsS.not_abs p -> scalar_interchangeable F r32 p.
-Proof. exact (fun A F r32 p H s => ProofsS.scalar_pairs_agree F r32 p s H). Qed.
+  scalar_interchangeable F r32 p.
+Proof. exact (fun A F r32 p s => ProofsS.scalar_pairs_agree_all F r32 p s). Qed.
 Theorem scalar_predicates_interchangeable : forall {A} (F : Fl A) (r32 : A -> A) (p : ppair),
   predicate_interchangeable F r32 p.
 Proof. exact (fun A F r32 p eps s => ProofsS.scalar_predicates_agree F r32 p eps s). Qed.
-(* Abs/ABS: interchangeable only when the receiver's old sign happens to pick the operand's branch *)
-Theorem ABS_interchangeable_partial : forall {A} (F : Fl A) (r32 : A -> A) c a (s : St),
-  (g_sign F r32 s c = (-1)%Z /\ sign_of F (rval (s a)) = (-1)%Z) \/
-  (g_sign F r32 s c <> (-1)%Z /\ sign_of F (rval (s a)) = 1%Z) ->
-  run_concrete F r32 (PAbs c a) s = run_generic F r32 (PAbs c a) s.
-Proof. exact @ProofsS.ABS_agrees_when. Qed.
-Theorem ABS_refuted : ~ scalar_interchangeable ProofsRefuted.FlZ (fun x => x) (PAbs 0 1).
-Proof. exact ProofsRefuted.ABS_refuted. Qed.
+Theorem ABS_interchangeable : forall {A} (F : Fl A) (r32 : A -> A) c a,
+  scalar_interchangeable F r32 (PAbs c a).
+Proof. exact (fun A F r32 c a s => ProofsS.ABS_eq F r32 c a s). Qed.
+(* the concrete ABS of this file is the instruction IABSc of the shared scalar model *)
+Theorem ABS_is_shared_model_ABS : forall {A} (F : Fl A) (r32 : A -> A) c a s,
+  ModelS.ABS F r32 c a s = exec F r32 (IABSc c (Rg a)) s.
+Proof. exact (fun A F r32 c a s => ProofsS.ABS_is_do_ABS_concrete F r32 c a s). Qed.
+(* round-1 witnesses of the retired findings F-C09-ABS and F-C09-SETORD: both members agree now *)
+Theorem ABS_round1_witness_regression :
+  match run_generic ProofsRefuted.FlZ (fun x => x) (PAbs 0 1) ProofsRefuted.st_abs with C01.Model.Ok s => rval (s 0%nat) | C01.Model.Panic _ => 0%Z end = 4%Z /\
+  match run_concrete ProofsRefuted.FlZ (fun x => x) (PAbs 0 1) ProofsRefuted.st_abs with C01.Model.Ok s => rval (s 0%nat) | C01.Model.Panic _ => 0%Z end = 4%Z.
+Proof. exact ProofsRefuted.ABS_round1_witness_agrees. Qed.
 
 (* ------------------------------------------------------------------ bare scalars *)
+(* every pair but Sqrt/SQRT, ABS included (2fc8894: the template got the same fix) *)
 Theorem bare_pairs_interchangeable : forall {A} (C : Car A) p t cold a b,
-  bare t -> wt C t a -> wt C t b -> ProofsB.not_abs_sqrt p ->
+  bare t -> wt C t a -> wt C t b -> ProofsB.not_sqrt p ->
   b_concrete C p t cold a b = b_generic C p t cold a b.
-Proof. exact @ProofsB.bare_pairs_agree. Qed.
+Proof. exact @ProofsB.bare_pairs_agree_but_sqrt. Qed.
+Theorem bare_ABS_interchangeable : forall {A} (C : Car A) t cold a b,
+  bare t -> wt C t a -> b_concrete C BAbsP t cold a b = b_generic C BAbsP t cold a b.
+Proof. exact (fun A C t cold a b Hb Ha => ProofsB.abs_pair C t cold a Hb Ha). Qed.
 Theorem bare_predicates_interchangeable : forall {A} (C : Car A) p t a b eps,
   bare t -> wt C t a -> wt C t b -> cr32 C (clit C L0) = clit C L0 ->
   q_concrete C p t a b eps = q_generic C p t a b eps.
@@ -91,7 +100,7 @@ Proof. exact ProofsRefuted.sparse_VDIVS_zero_refuted_float. Qed.
 
 (* ------------------------------------------------------------------ the hypotheses are satisfiable *)
 Example pairs_covered :
-  ProofsS.not_abs (PLogAdd 0 1 2 3) /\ ProofsV.vpair_ok true (VPopV Sub 0 0 1) /\ ProofsV.vpair_ok true (VPdivS 0 1 (-2))
-  /\ ProofsV.vpair_ok false (VPequals 0 1 3) /\ ProofsB.not_abs_sqrt (BArithP ODiv)
+  ProofsV.vpair_ok true (VPopV Sub 0 0 1) /\ ProofsV.vpair_ok true (VPdivS 0 1 (-2))
+  /\ ProofsV.vpair_ok false (VPequals 0 1 3) /\ ProofsB.not_sqrt BAbsP
   /\ bare TInt8 /\ (forall A (C : Car A), wt C TInt8 (VI (-128))) /\ (forall A (C : Car A) x, wt C TFloat64 (VF x)).
 Proof. cbn. repeat split; try discriminate; reflexivity. Qed.
